@@ -3,12 +3,12 @@
 def me(rule):
     return dict(module='grpcgcp', pkg='grpcgcp/multiendpoint', harness='multiendpoint',
                 instrument=[{'pkg': 'grpcgcp/multiendpoint', 'access': True}], level='model_checking',
-                workers={'quick': 16, 'thorough': 16}, deadline_s={'quick': 240, 'thorough': 1500}, rule=rule)
+                workers={'quick': 16, 'thorough': 16}, deadline_s={'quick': 420, 'thorough': 1500}, rule=rule)
 
 def pool(rule):
     return dict(module='grpcgcp', pkg='grpcgcp', harness='grpcgcp',
                 instrument=[{'pkg': 'grpcgcp', 'vgrpc': 'gcp_multiendpoint.go', 'access': True}, {'pkg': 'grpcgcp/multiendpoint', 'access': True}], level='model_checking',
-                workers={'quick': 16, 'thorough': 16}, deadline_s={'quick': 240, 'thorough': 1500}, rule=rule)
+                workers={'quick': 16, 'thorough': 16}, deadline_s={'quick': 420, 'thorough': 1500}, rule=rule)
 
 CHECKS = {
     'C13': me('explicit-state BFS over histories of SetEndpointAvailability/SetEndpoints/clock advances on the real multiEndpoint; a state is non-trivial if an availability status or the list changed on the way (counted by distinct canonical state key)'),
@@ -29,7 +29,7 @@ for p in ['C15', 'C16']:
 
 def inputs(module, pkg, harness, rule, instrument=None):
     return dict(module=module, pkg=pkg, harness=harness, instrument=instrument or [], level='exploration',
-                workers={'quick': 16, 'thorough': 16}, deadline_s={'quick': 240, 'thorough': 1500}, rule=rule)
+                workers={'quick': 16, 'thorough': 16}, deadline_s={'quick': 420, 'thorough': 1500}, rule=rule)
 
 CHECKS['C11'] = inputs('grpcgcp', 'grpcgcp', 'grpcgcp',
                        'exhaustive enumeration of (message shape, value, locator) triples against an independent reference extractor; non-trivial = distinct (message, locator) pairs for which the reference yields at least one key or fans out over a non-empty repeated field',
